@@ -57,7 +57,10 @@ Seq1(tp)    == tp \in {"ux", "uxf"}
 NewEp(tp, l1m) ==
   [tp |-> tp, l1m |-> l1m, l1 |-> "ready", l1why |-> 0,
    sbuf |-> 0, sent |-> 0, rbuf |-> 0, bad |-> FALSE, badwhy |-> 0,
-   cnt |-> ZeroCnt, cond |-> 0, mask |-> 0, bell |-> FALSE]
+   cnt |-> ZeroCnt, cond |-> 0, mask |-> 0, bell |-> FALSE,
+   \* btls only (L1 "logged"): what the last SSL_read / SSL_write left behind (ssl_condition, ssl_wants), and
+   \* whether the readiness of this endpoint can be predicted yet (SSL_has_pending has been observed)
+   sc |-> 0, sw |-> 0, rk |-> FALSE]
 
 (***************************************************************************)
 (* L1 = btcp underneath a framing layer.                                   *)
@@ -242,6 +245,31 @@ Update(ep) ==
   ELSE LET c == IF Framing(ep.tp) /\ ep.sbuf # 0 /\ ~HasBit(ep.cond, SENDABLE)
                 THEN ep.cond + SENDABLE ELSE ep.cond
        IN [ep EXCEPT !.mask = CondMask(c), !.bell = FALSE]
+
+(***************************************************************************)
+(* btls conn_update (xcm_tp_btls.c), connection established.               *)
+(*   c  : the condition handed to btls (tls_update adds SENDABLE while a   *)
+(*        frame is pending)                                                *)
+(*   hp : SSL_has_pending                                                  *)
+(* Result: the bell rings, or the condition handed down to btcp (which     *)
+(* registers the kernel descriptor accordingly).  When the bell rings      *)
+(* btcp is not updated: its registration stays what it was.                *)
+(***************************************************************************)
+BtlsCond(ep, c, hp) ==
+  IF c = 0 THEN [bell |-> FALSE, sub |-> 0]
+  ELSE IF HasBit(c, RECEIVABLE) /\ hp THEN [bell |-> TRUE, sub |-> 0]
+  ELSE IF ep.sc = 0 THEN [bell |-> TRUE, sub |-> 0]                    \* no SSL_read() / SSL_write() outstanding
+  ELSE IF c = ep.sc THEN [bell |-> FALSE, sub |-> ep.sw]
+  ELSE IF c = RECEIVABLE + SENDABLE
+  THEN (IF ep.sc = SENDABLE /\ ep.sw = RECEIVABLE THEN [bell |-> FALSE, sub |-> RECEIVABLE]
+        ELSE [bell |-> FALSE, sub |-> RECEIVABLE + SENDABLE])
+  ELSE [bell |-> TRUE, sub |-> 0]                                       \* no overlap between what is awaited and what SSL did last
+
+UpdateTls(ep, hp) ==
+  IF ep.l1 # "ready" THEN [ep EXCEPT !.bell = TRUE]
+  ELSE LET c == IF Framing(ep.tp) /\ ep.sbuf # 0 /\ ~HasBit(ep.cond, SENDABLE) THEN ep.cond + SENDABLE ELSE ep.cond
+           b == BtlsCond(ep, c, hp)
+       IN IF b.bell THEN [ep EXCEPT !.bell = TRUE] ELSE [ep EXCEPT !.bell = FALSE, !.mask = CondMask(b.sub)]
 
 \* kr: what poll() reports on the kernel descriptor (POLLIN=1, POLLOUT=4, POLLERR=8, POLLHUP=16)
 KernelFires(mask, kr) ==
